@@ -749,6 +749,13 @@ func readerNextFrameRules(c *Ctx, prop string) {
 			if wantUTF8 != got {
 				problems = append(problems, fmt.Sprintf("validating reader installed=%v, want %v [%s]", got, wantUTF8, np.in))
 			}
+			// what the continuation callback is handed is the installed chain: bytes it consumes
+			// pass through the validator (and the unmasking reader) like the ones Read delivers
+			for _, e := range np.p.Calls("OnContinuation") {
+				if len(e.Args) == 2 && fold.Show(e.Args[1]) != fold.Show(np.frameV) {
+					problems = append(problems, fmt.Sprintf("OnContinuation is handed %s while the frame reader installed for Read is %s: what the callback consumes bypasses the UTF-8 check [%s]", fold.Show(e.Args[1]), fold.Show(np.frameV), np.in))
+				}
+			}
 			if np.utf8State != initUTF8St {
 				problems = append(problems, "NextFrame changes the carried UTF-8 state")
 			}
